@@ -1,4 +1,5 @@
 import Invoke.Lemmas.RunOpts
+import Invoke.Lemmas.RunnerReuse
 /-! # C15 — the command, options and environment actually used are the documented resolution
 
 Property theorems only (helpers: `Invoke/Lemmas/RunOpts.lean`).  The option keys, their built-in defaults and the
@@ -392,5 +393,20 @@ example : generateEnv [("A", "p"), ("B", "q")] [("A", "1"), ("C", "2")] false = 
 theorem hide_both_keeps_echo_observation :
     unifyView [] .none [("hide", .str "both"), ("echo", .true)]
       = some (.true, ["stdout", "stderr"], .none, .stream 0, .stream 1) := by decide
+
+/-! ## runs on one runner object -/
+
+/-- REUSE: the model starts every run from `S.init` / resolves every call's options from that call alone.  The table
+    regenerated from the real `Local` - attributes that differ, when the second run's workers start, between a fresh
+    object and one that has already timed out / failed / read half a character / answered a watcher / lost a worker /
+    run asynchronously / used a pty / used other options - contains only inert leftovers (`RunnerReuse.inertLeftovers`):
+    no event, codec, watcher list, timer or kill flag of an earlier run is in effect. -/
+theorem reused_runner_starts_like_fresh :
+    ∀ r ∈ Generated.carriedOver, RunnerReuse.rowInert r = true := by decide
+
+/-- the probe is not vacuous: every first run it drives does leave per-run state behind -/
+theorem reuse_probe_dirties_state :
+    RunnerReuse.everyScenarioDirties = true ∧ 10 ≤ Generated.dirtyScenarios.length ∧ 20 ≤ Generated.probedAttrs.length := by
+  decide
 
 end Inv
